@@ -5,7 +5,7 @@
    with 1-dimensional factors, rectangular). *)
 From Coq Require Import List ZArith NArith Bool Arith Lia.
 Import ListNotations.
-From QV Require Import Model.C02 Proofs.C02.
+From QV Require Import Model.C02 Proofs.C02 Proofs.C02_nested.
 Local Open Scope N_scope.
 
 (* Python's == on dimension objects is structural equality of what they
@@ -125,6 +125,67 @@ Theorem C02_inv_exchanges_labels :
      qobj_inv self = ORaise TypeError).
 Proof. split; [exact qobj_inv_spec | exact qobj_inv_rejects]. Qed.
 Print Assumptions C02_inv_exchanges_labels.
+
+(* printing a space as a nested list and parsing it again gives the same
+   space: for every nesting depth (superoperator spaces over superoperator
+   spaces, tensor products of superoperator spaces, 1-dimensional factors),
+   both settings of auto_tidyup_dims, and a given or defaulted representation.
+   wfb describes what the constructors build (Proofs/C02_nested.v). *)
+Theorem C02_nested_roundtrip :
+  forall tidy ro s fuel,
+    wfb tidy (rep_of ro) s = true -> (sdepth s <= fuel)%nat ->
+    from_list tidy fuel (as_list s) ro = Ok s.
+Proof. exact nested_roundtrip. Qed.
+Print Assumptions C02_nested_roundtrip.
+
+(* overlap and matrix_element accept exactly the operands whose Hilbert-space
+   labels agree (and raise TypeError otherwise) *)
+Theorem C02_overlap_matrix_element_labels :
+  (forall a b, qobj_overlap a b = ONumberResult <->
+     exists p, state_spaces a = Some p /\ state_spaces b = Some p) /\
+  (forall a b, qobj_overlap a b = ONumberResult \/ qobj_overlap a b = ORaise TypeError) /\
+  (forall op bra ket, qobj_matrix_element op bra ket = ONumberResult <->
+     dims_type op = TOper /\ vec_space bra = Some (d_to op) /\ vec_space ket = Some (d_from op)).
+Proof.
+  split; [exact qobj_overlap_spec|]. split; [exact qobj_overlap_total|].
+  exact qobj_matrix_element_spec.
+Qed.
+Print Assumptions C02_overlap_matrix_element_labels.
+
+(* a superoperator applied to an operator: vectorise (through the nested list
+   form [op.dims, [1]]), multiply, devectorise (through the list form of the
+   superoperator's row space) - the result carries the operator labels the
+   superoperator maps to *)
+Theorem C02_super_applied_to_operator :
+  forall tidy fuel f t f' t',
+    wfb tidy RSuper (Super f t RSuper) = true ->
+    wfb tidy RSuper (Super f' t' RSuper) = true ->
+    dims_type {| d_from := f; d_to := t |} = TOper ->
+    size t' * size f' <> 1 ->
+    (S (sdepth (Super f t RSuper)) <= fuel)%nat ->
+    (sdepth (Super f' t' RSuper) <= fuel)%nat ->
+    qobj_call tidy fuel {| d_from := Super f t RSuper; d_to := Super f' t' RSuper |}
+                        {| d_from := f; d_to := t |}
+    = ODims {| d_from := f'; d_to := t' |}.
+Proof. exact call_super_on_oper. Qed.
+Print Assumptions C02_super_applied_to_operator.
+
+(* the hypotheses above are met: a superoperator space over a superoperator
+   space tensored with another one, and a rectangular superoperator on a
+   compound space applied to an operator *)
+Example C02_nonvacuous_nested :
+  let a := Compound [Simple 2; Field; Simple 3] in
+  let s1 := Super a a RSuper in
+  let s2 := Super (Simple 2) (Simple 2) RSuper in
+  let big := Compound [Super s1 s1 RSuper; Super s2 s2 RSuper] in
+  wfb true RSuper big = true /\ (sdepth big <= 3)%nat /\
+  from_list true 3 (as_list big) (Some RSuper) = Ok big /\
+  wfb true RSuper (Super (Simple 3) a RSuper) = true /\
+  dims_type {| d_from := Simple 3; d_to := a |} = TOper /\
+  qobj_call true 4 {| d_from := Super (Simple 3) a RSuper; d_to := Super (Simple 2) a RSuper |}
+                   {| d_from := Simple 3; d_to := a |}
+  = ODims {| d_from := Simple 2; d_to := a |}.
+Proof. repeat split; vm_compute; try reflexivity; intros H; discriminate H. Qed.
 
 (* non-vacuity: a rectangular superoperator-on-compound spec exists, is
    typed 'super', and composes with its adjoint's labels *)
